@@ -26,9 +26,14 @@ type c02Stmt struct {
 type c02Case struct {
 	Stmts []c02Stmt `json:"stmts"`
 	Lines []string  `json:"lines"`
+	// Raw: the program is this text (native fuzz target) instead of Stmts
+	Raw vstat.Q `json:"raw,omitempty"`
 }
 
 func (c *c02Case) source() string {
+	if c.Raw != "" {
+		return string(c.Raw)
+	}
 	var sb strings.Builder
 	used := map[string]bool{}
 	for _, s := range c.Stmts {
@@ -229,7 +234,10 @@ func runC02x(c c02Case) (*vstat.Failure, c02Res) {
 	src := c.source()
 	objO, errO := hx.Compile("c02opt.mtail", src)
 	objU, errU := hx.Compile("c02raw.mtail", src, compiler.DisableOptimisation())
-	zeroDiv := false
+	zeroDiv := c.Raw != "" // raw text: the error message alone decides
+	if c.Raw != "" && errO != nil && errU != nil {
+		return nil, res // not a program
+	}
 	for _, s := range c.Stmts {
 		if hasConstZeroDivisor(s.E) || hasConstZeroDivisor(s.E2) {
 			zeroDiv = true
